@@ -41,7 +41,7 @@ partial def SDesc.toPipe : SDesc → Pipe
   | .starmap g => .ofList [D.map (fun v => g.eval (v.nth 0) (v.nth 1))]
   | .filter f => .ofList [D.filter f.eval]
   | .flatMap => .ofList [D.flatMap]
-  | .scan g seed r t => .ofList [D.scan g.eval seed r (t.map total1)]
+  | .scan g seed r t => .ofList [D.scanTyped g.eval seed r (t.map total1)]
   | .count r => .ofList [D.count r]
   | .sum f r => .ofList [D.sum f.eval r]
   | .mean f r => D.mean f.eval r
